@@ -1156,7 +1156,8 @@ namespace
     }
     double rnd_p(Rng& rng)
     {
-        return rng.pick(std::vector<double>{ 0.0, 0.5, 1.0, 1.1, 2.0, 5.0, 10.0 });
+        // every exponent >= 0 is in the domain; large ones make pow() of the slope ratios underflow
+        return rng.pick(std::vector<double>{ 0.0, 0.5, 1.0, 1.1, 2.0, 5.0, 10.0, 10.0, 25.0, 60.0 });
     }
     OpSpec rnd_single(Rng& rng)
     {
